@@ -302,8 +302,9 @@ def exec_tree(ctx, case):
         ctx.count("resamplings_under_custom_names_and_subclasses")
         if r is None:
             try:
-                r = G._same(IsometricResampler(spacing)(tree),
-                            IsometricResampler(spacing)(G.voxel_twin(tree)))
+                base_ = G.renamed(tree, -1)  # (like with like: both sides in the library's dtypes)
+                r = G._same(IsometricResampler(spacing)(base_),
+                            IsometricResampler(spacing)(G.voxel_twin(base_)))
                 r = r and f"for a Tree subclass reporting its columns through get_ndata: {r}"
             except Exception as e:
                 r = f"a Tree subclass overriding get_ndata: raised {type(e).__name__}: {str(e)[:100]}"
